@@ -34,6 +34,12 @@ COMMANDS = {
     "def_then_fail": ("def late = 7; def late2 = late + 1; error 'after defs'", "def late = 7; def late2 = late + 1", True),
     "read_late": ("late2", "", None),
     "read_q": ("qq", "", True),
+    "loop_abort2": ("for [qa, qb] in [[1, 2], [3, 4]] do if qa == 3 then error 'in loop' end", "", True),
+    "read_qb": ("[qb]", "", True),
+    "loop_abort3": ("for [qa, qb, qc] in <<[1, 2, 3]>> do error qc end", "", True),
+    "read_qc": ("qc", "", True),
+    "compr_abort": ("[1 / (2 - z1) for z1 in [1, 2, 3]]", "", True),
+    "read_z1": ("z1", "", True),
     "block_fail": ("do def inblock = 3; error 12 finally println('fin') end", "def inblock = 3; println('fin')", True),
 }
 
@@ -84,7 +90,7 @@ def run(ctx):
                 "calls behave as in the history with every failed call replaced by its completed prefix, interleaved instances behave as alone; "
                 "non-trivial = a history with >= 1 failing call followed by >= 1 later call")
     core_alpha = ["def_x", "assign_x", "read_x", "fail_expr", "syntax", "req_good", "req_missing", "req_broken", "req_cycle", "loop_abort",
-                  "def_then_fail", "read_late", "read_q", "req_failing"]
+                  "def_then_fail", "read_late", "read_q", "req_failing", "loop_abort2", "read_qb"]
     histories = []
     maxlen = 4 if ctx.thorough else 3
     for n in range(1, maxlen + 1):
